@@ -1007,7 +1007,12 @@ def delete_unused_functions_and_classes(
     for node in core.walk(root, ast.ClassDef):
         if is_registered(node):
             continue
-        if node.name not in preserve:
+        member_names = {
+            child.name
+            for child in core.filter_nodes(node.body, (ast.FunctionDef, ast.AsyncFunctionDef))
+        }
+        # A preserved method needs its class
+        if node.name not in preserve and not member_names & set(preserve):
             classdefs.append(node)
 
     for node in core.walk(root, ast.Name(ctx=ast.Load)):
